@@ -107,7 +107,15 @@ int pem_read(FILE *fp, const char *name, uint8_t *data, size_t *datalen, size_t 
 	base64_decode_init(&ctx);
 
 	for (;;) {
+		size_t linelen;
+
 		if (!fgets(line, sizeof(line), fp)) {
+			error_print();
+			return -1;
+		}
+		// a line that ends before the newline and before the buffer is full contains a NUL byte
+		linelen = strlen(line);
+		if (linelen < sizeof(line) - 1 && (linelen == 0 || line[linelen - 1] != '\n') && !feof(fp)) {
 			error_print();
 			return -1;
 		}
